@@ -55,7 +55,9 @@ Theorem C09_push_panics :
          vlen v < vcap v \/ grow_ok c v (vcap v + 1) ->
          exists (v' : vec) (u' : uw),
            push_unchecked c (VClone bs k) (v, u) = Panic PUser (v', u') /\
-           Rep c v' xs /\ unext u' = unext u /\ ufuse u' = None /\ uevents u' = uevents u.
+           Rep c v' xs /\
+           unext u' = unext u /\
+           ufuse u' = None /\ uevents u' = uevents u /\ vbk v' = vbk v /\ (vlen v < vcap v -> vcap v' = vcap v).
 Proof. exact push_clone_panics. Qed.
 
 
